@@ -366,4 +366,404 @@ def dt_replace_signature : List String := ["x", "year=None", "month=None", "day=
 /-- the calls of dataiter/dt.py: replace in the order Python makes them along the source text -/
 def dt_replace_call_order : List String := ["locals", "locals().items", "kwargs.values", "map", "all", "_pull_datetime", "kwargs.values", "util.is_scalar", "len", "len", "util.is_scalar", "isinstance", "np.issubdtype", "np.full_like", "Vector.fast", "np.isnat", "x.astype", "np.flatnonzero", "xobj[i].replace"]
 
+/-- dataiter/dt.py: day (sha256 of the function source: b60060c6ed0c6b70) -/
+def dt_day (truth : Term → Bool) : Out :=
+  Out.ret [] (Term.app "_pull_int" [(Term.sym "x"), (Term.app "lambda" [(Term.app "params" [(Term.sym "y")]), (Term.app ".day" [(Term.sym "y")])])])
+
+/-- the decorators of dataiter/dt.py: day, outermost first -/
+def dt_day_decorators : List String := []
+
+/-- the signature of dataiter/dt.py: day: parameters in order, with the source text of their defaults -/
+def dt_day_signature : List String := ["x"]
+
+/-- the calls of dataiter/dt.py: day in the order Python makes them along the source text -/
+def dt_day_call_order : List String := ["_pull_int"]
+
+/-- dataiter/dt.py: hour (sha256 of the function source: ac8f05f3fb74c24c) -/
+def dt_hour (truth : Term → Bool) : Out :=
+  Out.ret [] (Term.app "_pull_int" [(Term.sym "x"), (Term.app "lambda" [(Term.app "params" [(Term.sym "y")]), (Term.app ".hour" [(Term.sym "y")])])])
+
+/-- the decorators of dataiter/dt.py: hour, outermost first -/
+def dt_hour_decorators : List String := []
+
+/-- the signature of dataiter/dt.py: hour: parameters in order, with the source text of their defaults -/
+def dt_hour_signature : List String := ["x"]
+
+/-- the calls of dataiter/dt.py: hour in the order Python makes them along the source text -/
+def dt_hour_call_order : List String := ["_pull_int"]
+
+/-- dataiter/dt.py: isoweek (sha256 of the function source: 75914b97df1e936f) -/
+def dt_isoweek (truth : Term → Bool) : Out :=
+  Out.ret [] (Term.app "_pull_int" [(Term.sym "x"), (Term.app "lambda" [(Term.app "params" [(Term.sym "y")]), (Term.app "getitem" [(Term.app ".isocalendar" [(Term.sym "y")]), (Term.int (1 : Int))])])])
+
+/-- the decorators of dataiter/dt.py: isoweek, outermost first -/
+def dt_isoweek_decorators : List String := []
+
+/-- the signature of dataiter/dt.py: isoweek: parameters in order, with the source text of their defaults -/
+def dt_isoweek_signature : List String := ["x"]
+
+/-- the calls of dataiter/dt.py: isoweek in the order Python makes them along the source text -/
+def dt_isoweek_call_order : List String := ["_pull_int"]
+
+/-- dataiter/dt.py: isoweekday (sha256 of the function source: b70682e81cf79fb3) -/
+def dt_isoweekday (truth : Term → Bool) : Out :=
+  Out.ret [] (Term.app "_pull_int" [(Term.sym "x"), (Term.app "lambda" [(Term.app "params" [(Term.sym "y")]), (Term.app ".isoweekday" [(Term.sym "y")])])])
+
+/-- the decorators of dataiter/dt.py: isoweekday, outermost first -/
+def dt_isoweekday_decorators : List String := []
+
+/-- the signature of dataiter/dt.py: isoweekday: parameters in order, with the source text of their defaults -/
+def dt_isoweekday_signature : List String := ["x"]
+
+/-- the calls of dataiter/dt.py: isoweekday in the order Python makes them along the source text -/
+def dt_isoweekday_call_order : List String := ["_pull_int"]
+
+/-- dataiter/dt.py: microsecond (sha256 of the function source: 490be2b86f0eb022) -/
+def dt_microsecond (truth : Term → Bool) : Out :=
+  Out.ret [] (Term.app "_pull_int" [(Term.sym "x"), (Term.app "lambda" [(Term.app "params" [(Term.sym "y")]), (Term.app ".microsecond" [(Term.sym "y")])])])
+
+/-- the decorators of dataiter/dt.py: microsecond, outermost first -/
+def dt_microsecond_decorators : List String := []
+
+/-- the signature of dataiter/dt.py: microsecond: parameters in order, with the source text of their defaults -/
+def dt_microsecond_signature : List String := ["x"]
+
+/-- the calls of dataiter/dt.py: microsecond in the order Python makes them along the source text -/
+def dt_microsecond_call_order : List String := ["_pull_int"]
+
+/-- dataiter/dt.py: minute (sha256 of the function source: fa023e4cec79efe0) -/
+def dt_minute (truth : Term → Bool) : Out :=
+  Out.ret [] (Term.app "_pull_int" [(Term.sym "x"), (Term.app "lambda" [(Term.app "params" [(Term.sym "y")]), (Term.app ".minute" [(Term.sym "y")])])])
+
+/-- the decorators of dataiter/dt.py: minute, outermost first -/
+def dt_minute_decorators : List String := []
+
+/-- the signature of dataiter/dt.py: minute: parameters in order, with the source text of their defaults -/
+def dt_minute_signature : List String := ["x"]
+
+/-- the calls of dataiter/dt.py: minute in the order Python makes them along the source text -/
+def dt_minute_call_order : List String := ["_pull_int"]
+
+/-- dataiter/dt.py: month (sha256 of the function source: eaba29b5ce057dfd) -/
+def dt_month (truth : Term → Bool) : Out :=
+  Out.ret [] (Term.app "_pull_int" [(Term.sym "x"), (Term.app "lambda" [(Term.app "params" [(Term.sym "y")]), (Term.app ".month" [(Term.sym "y")])])])
+
+/-- the decorators of dataiter/dt.py: month, outermost first -/
+def dt_month_decorators : List String := []
+
+/-- the signature of dataiter/dt.py: month: parameters in order, with the source text of their defaults -/
+def dt_month_signature : List String := ["x"]
+
+/-- the calls of dataiter/dt.py: month in the order Python makes them along the source text -/
+def dt_month_call_order : List String := ["_pull_int"]
+
+/-- dataiter/dt.py: new (sha256 of the function source: d4b049c0f0676d1f) -/
+def dt_new (truth : Term → Bool) : Out :=
+  if truth (Term.app "util.is_scalar" [(Term.sym "x")]) then
+    Out.ret [] (Term.app "np.datetime64" [(Term.sym "x")])
+  else
+    Out.ret [] (Term.app "Vector.fast" [(Term.app "map" [(Term.sym "np.datetime64"), (Term.sym "x")]), (Term.sym "np.datetime64")])
+
+/-- the decorators of dataiter/dt.py: new, outermost first -/
+def dt_new_decorators : List String := []
+
+/-- the signature of dataiter/dt.py: new: parameters in order, with the source text of their defaults -/
+def dt_new_signature : List String := ["x"]
+
+/-- the calls of dataiter/dt.py: new in the order Python makes them along the source text -/
+def dt_new_call_order : List String := ["util.is_scalar", "np.datetime64", "map", "Vector.fast"]
+
+/-- dataiter/dt.py: now (sha256 of the function source: 4d5ae71fbb58d58c) -/
+def dt_now (truth : Term → Bool) : Out :=
+  Out.ret [] (Term.app "np.datetime64" [(Term.app "datetime.datetime.now" [])])
+
+/-- the decorators of dataiter/dt.py: now, outermost first -/
+def dt_now_decorators : List String := []
+
+/-- the signature of dataiter/dt.py: now: parameters in order, with the source text of their defaults -/
+def dt_now_signature : List String := []
+
+/-- the calls of dataiter/dt.py: now in the order Python makes them along the source text -/
+def dt_now_call_order : List String := ["datetime.datetime.now", "np.datetime64"]
+
+/-- dataiter/dt.py: second (sha256 of the function source: fdf89b071834c6ff) -/
+def dt_second (truth : Term → Bool) : Out :=
+  Out.ret [] (Term.app "_pull_int" [(Term.sym "x"), (Term.app "lambda" [(Term.app "params" [(Term.sym "y")]), (Term.app ".second" [(Term.sym "y")])])])
+
+/-- the decorators of dataiter/dt.py: second, outermost first -/
+def dt_second_decorators : List String := []
+
+/-- the signature of dataiter/dt.py: second: parameters in order, with the source text of their defaults -/
+def dt_second_signature : List String := ["x"]
+
+/-- the calls of dataiter/dt.py: second in the order Python makes them along the source text -/
+def dt_second_call_order : List String := ["_pull_int"]
+
+/-- dataiter/dt.py: today (sha256 of the function source: 2085565254e7ec60) -/
+def dt_today (truth : Term → Bool) : Out :=
+  Out.ret [] (Term.app "np.datetime64" [(Term.app "datetime.date.today" [])])
+
+/-- the decorators of dataiter/dt.py: today, outermost first -/
+def dt_today_decorators : List String := []
+
+/-- the signature of dataiter/dt.py: today: parameters in order, with the source text of their defaults -/
+def dt_today_signature : List String := []
+
+/-- the calls of dataiter/dt.py: today in the order Python makes them along the source text -/
+def dt_today_call_order : List String := ["datetime.date.today", "np.datetime64"]
+
+/-- dataiter/vector.py: DtProxy.__init__ (sha256 of the function source: d376b96b28795a7d) -/
+def DtProxy_init (truth : Term → Bool) : Out :=
+  let wrap' : Term := (Term.app "lambda" [(Term.app "params" [(Term.sym "f")]), (Term.app "functools.partial" [(Term.sym "f"), (Term.sym "vector")])]);
+  let attr0_1' : Term := (Term.app "call" [wrap', (Term.sym "dt.day")]);
+  let eff0 : Term := (Term.app "setattr" [(Term.sym "self"), (Term.sym "day"), attr0_1']);
+  let attr1_1' : Term := (Term.app "call" [wrap', (Term.sym "dt.from_string")]);
+  let eff1 : Term := (Term.app "setattr" [(Term.sym "self"), (Term.sym "from_string"), attr1_1']);
+  let attr2_1' : Term := (Term.app "call" [wrap', (Term.sym "dt.hour")]);
+  let eff2 : Term := (Term.app "setattr" [(Term.sym "self"), (Term.sym "hour"), attr2_1']);
+  let attr3_1' : Term := (Term.app "call" [wrap', (Term.sym "dt.isoweek")]);
+  let eff3 : Term := (Term.app "setattr" [(Term.sym "self"), (Term.sym "isoweek"), attr3_1']);
+  let attr4_1' : Term := (Term.app "call" [wrap', (Term.sym "dt.isoweekday")]);
+  let eff4 : Term := (Term.app "setattr" [(Term.sym "self"), (Term.sym "isoweekday"), attr4_1']);
+  let attr5_1' : Term := (Term.app "call" [wrap', (Term.sym "dt.microsecond")]);
+  let eff5 : Term := (Term.app "setattr" [(Term.sym "self"), (Term.sym "microsecond"), attr5_1']);
+  let attr6_1' : Term := (Term.app "call" [wrap', (Term.sym "dt.minute")]);
+  let eff6 : Term := (Term.app "setattr" [(Term.sym "self"), (Term.sym "minute"), attr6_1']);
+  let attr7_1' : Term := (Term.app "call" [wrap', (Term.sym "dt.month")]);
+  let eff7 : Term := (Term.app "setattr" [(Term.sym "self"), (Term.sym "month"), attr7_1']);
+  let attr8_1' : Term := (Term.app "call" [wrap', (Term.sym "dt.new")]);
+  let eff8 : Term := (Term.app "setattr" [(Term.sym "self"), (Term.sym "new"), attr8_1']);
+  let attr9_1' : Term := (Term.app "call" [wrap', (Term.sym "dt.quarter")]);
+  let eff9 : Term := (Term.app "setattr" [(Term.sym "self"), (Term.sym "quarter"), attr9_1']);
+  let attr10_1' : Term := (Term.app "call" [wrap', (Term.sym "dt.replace")]);
+  let eff10 : Term := (Term.app "setattr" [(Term.sym "self"), (Term.sym "replace"), attr10_1']);
+  let attr11_1' : Term := (Term.app "call" [wrap', (Term.sym "dt.second")]);
+  let eff11 : Term := (Term.app "setattr" [(Term.sym "self"), (Term.sym "second"), attr11_1']);
+  let attr12_1' : Term := (Term.app "call" [wrap', (Term.sym "dt.to_string")]);
+  let eff12 : Term := (Term.app "setattr" [(Term.sym "self"), (Term.sym "to_string"), attr12_1']);
+  let attr13_1' : Term := (Term.app "call" [wrap', (Term.sym "dt.weekday")]);
+  let eff13 : Term := (Term.app "setattr" [(Term.sym "self"), (Term.sym "weekday"), attr13_1']);
+  let attr14_1' : Term := (Term.app "call" [wrap', (Term.sym "dt.year")]);
+  let eff14 : Term := (Term.app "setattr" [(Term.sym "self"), (Term.sym "year"), attr14_1']);
+  Out.fall [eff0, eff1, eff2, eff3, eff4, eff5, eff6, eff7, eff8, eff9, eff10, eff11, eff12, eff13, eff14]
+
+/-- the decorators of dataiter/vector.py: DtProxy.__init__, outermost first -/
+def DtProxy_init_decorators : List String := []
+
+/-- the signature of dataiter/vector.py: DtProxy.__init__: parameters in order, with the source text of their defaults -/
+def DtProxy_init_signature : List String := ["self", "vector"]
+
+/-- the calls of dataiter/vector.py: DtProxy.__init__ in the order Python makes them along the source text -/
+def DtProxy_init_call_order : List String := ["wrap", "wrap", "wrap", "wrap", "wrap", "wrap", "wrap", "wrap", "wrap", "wrap", "wrap", "wrap", "wrap", "wrap", "wrap"]
+
+/-- dataiter/vector.py: ReProxy.__init__ (sha256 of the function source: e1afeb5955f50e1e) -/
+def ReProxy_init (truth : Term → Bool) : Out :=
+  let wrap' : Term := (Term.app "lambda" [(Term.app "params" [(Term.sym "f")]), (Term.app "functools.partial" [(Term.sym "f"), (Term.app "=string" [(Term.sym "vector")])])]);
+  let attr0_1' : Term := (Term.app "call" [wrap', (Term.sym "regex.findall")]);
+  let eff0 : Term := (Term.app "setattr" [(Term.sym "self"), (Term.sym "findall"), attr0_1']);
+  let attr1_1' : Term := (Term.app "call" [wrap', (Term.sym "regex.fullmatch")]);
+  let eff1 : Term := (Term.app "setattr" [(Term.sym "self"), (Term.sym "fullmatch"), attr1_1']);
+  let attr2_1' : Term := (Term.app "call" [wrap', (Term.sym "regex.match")]);
+  let eff2 : Term := (Term.app "setattr" [(Term.sym "self"), (Term.sym "match"), attr2_1']);
+  let attr3_1' : Term := (Term.app "call" [wrap', (Term.sym "regex.search")]);
+  let eff3 : Term := (Term.app "setattr" [(Term.sym "self"), (Term.sym "search"), attr3_1']);
+  let attr4_1' : Term := (Term.app "call" [wrap', (Term.sym "regex.split")]);
+  let eff4 : Term := (Term.app "setattr" [(Term.sym "self"), (Term.sym "split"), attr4_1']);
+  let attr5_1' : Term := (Term.app "call" [wrap', (Term.sym "regex.sub")]);
+  let eff5 : Term := (Term.app "setattr" [(Term.sym "self"), (Term.sym "sub"), attr5_1']);
+  let attr6_1' : Term := (Term.app "call" [wrap', (Term.sym "regex.subn")]);
+  let eff6 : Term := (Term.app "setattr" [(Term.sym "self"), (Term.sym "subn"), attr6_1']);
+  Out.fall [eff0, eff1, eff2, eff3, eff4, eff5, eff6]
+
+/-- the decorators of dataiter/vector.py: ReProxy.__init__, outermost first -/
+def ReProxy_init_decorators : List String := []
+
+/-- the signature of dataiter/vector.py: ReProxy.__init__: parameters in order, with the source text of their defaults -/
+def ReProxy_init_signature : List String := ["self", "vector"]
+
+/-- the calls of dataiter/vector.py: ReProxy.__init__ in the order Python makes them along the source text -/
+def ReProxy_init_call_order : List String := ["wrap", "wrap", "wrap", "wrap", "wrap", "wrap", "wrap"]
+
+/-- dataiter/vector.py: StrProxy.__init__ (sha256 of the function source: b47c2036e6dfc70f) -/
+def StrProxy_init (truth : Term → Bool) : Out :=
+  let wrap' : Term := (Term.app "lambda" [(Term.app "params" [(Term.sym "name")]), (Term.app "as_vector" [(Term.app "functools.partial" [(Term.app "getattr" [(Term.sym "np.strings"), (Term.sym "name"), (Term.sym "not_implemented")]), (Term.sym "vector")])])]);
+  let attr0_1' : Term := (Term.app "call" [wrap', (Term.sym "'add'")]);
+  let eff0 : Term := (Term.app "setattr" [(Term.sym "self"), (Term.sym "add"), attr0_1']);
+  let attr1_1' : Term := (Term.app "call" [wrap', (Term.sym "'capitalize'")]);
+  let eff1 : Term := (Term.app "setattr" [(Term.sym "self"), (Term.sym "capitalize"), attr1_1']);
+  let attr2_1' : Term := (Term.app "call" [wrap', (Term.sym "'center'")]);
+  let eff2 : Term := (Term.app "setattr" [(Term.sym "self"), (Term.sym "center"), attr2_1']);
+  let attr3_1' : Term := (Term.app "call" [wrap', (Term.sym "'count'")]);
+  let eff3 : Term := (Term.app "setattr" [(Term.sym "self"), (Term.sym "count"), attr3_1']);
+  let attr4_1' : Term := (Term.app "call" [wrap', (Term.sym "'decode'")]);
+  let eff4 : Term := (Term.app "setattr" [(Term.sym "self"), (Term.sym "decode"), attr4_1']);
+  let attr5_1' : Term := (Term.app "call" [wrap', (Term.sym "'encode'")]);
+  let eff5 : Term := (Term.app "setattr" [(Term.sym "self"), (Term.sym "encode"), attr5_1']);
+  let attr6_1' : Term := (Term.app "call" [wrap', (Term.sym "'endswith'")]);
+  let eff6 : Term := (Term.app "setattr" [(Term.sym "self"), (Term.sym "endswith"), attr6_1']);
+  let attr7_1' : Term := (Term.app "call" [wrap', (Term.sym "'equal'")]);
+  let eff7 : Term := (Term.app "setattr" [(Term.sym "self"), (Term.sym "equal"), attr7_1']);
+  let attr8_1' : Term := (Term.app "call" [wrap', (Term.sym "'expandtabs'")]);
+  let eff8 : Term := (Term.app "setattr" [(Term.sym "self"), (Term.sym "expandtabs"), attr8_1']);
+  let attr9_1' : Term := (Term.app "call" [wrap', (Term.sym "'find'")]);
+  let eff9 : Term := (Term.app "setattr" [(Term.sym "self"), (Term.sym "find"), attr9_1']);
+  let attr10_1' : Term := (Term.app "call" [wrap', (Term.sym "'greater'")]);
+  let eff10 : Term := (Term.app "setattr" [(Term.sym "self"), (Term.sym "greater"), attr10_1']);
+  let attr11_1' : Term := (Term.app "call" [wrap', (Term.sym "'greater_equal'")]);
+  let eff11 : Term := (Term.app "setattr" [(Term.sym "self"), (Term.sym "greater_equal"), attr11_1']);
+  let attr12_1' : Term := (Term.app "call" [wrap', (Term.sym "'index'")]);
+  let eff12 : Term := (Term.app "setattr" [(Term.sym "self"), (Term.sym "index"), attr12_1']);
+  let attr13_1' : Term := (Term.app "call" [wrap', (Term.sym "'isalnum'")]);
+  let eff13 : Term := (Term.app "setattr" [(Term.sym "self"), (Term.sym "isalnum"), attr13_1']);
+  let attr14_1' : Term := (Term.app "call" [wrap', (Term.sym "'isalpha'")]);
+  let eff14 : Term := (Term.app "setattr" [(Term.sym "self"), (Term.sym "isalpha"), attr14_1']);
+  let attr15_1' : Term := (Term.app "call" [wrap', (Term.sym "'isdecimal'")]);
+  let eff15 : Term := (Term.app "setattr" [(Term.sym "self"), (Term.sym "isdecimal"), attr15_1']);
+  let attr16_1' : Term := (Term.app "call" [wrap', (Term.sym "'isdigit'")]);
+  let eff16 : Term := (Term.app "setattr" [(Term.sym "self"), (Term.sym "isdigit"), attr16_1']);
+  let attr17_1' : Term := (Term.app "call" [wrap', (Term.sym "'islower'")]);
+  let eff17 : Term := (Term.app "setattr" [(Term.sym "self"), (Term.sym "islower"), attr17_1']);
+  let attr18_1' : Term := (Term.app "call" [wrap', (Term.sym "'isnumeric'")]);
+  let eff18 : Term := (Term.app "setattr" [(Term.sym "self"), (Term.sym "isnumeric"), attr18_1']);
+  let attr19_1' : Term := (Term.app "call" [wrap', (Term.sym "'isspace'")]);
+  let eff19 : Term := (Term.app "setattr" [(Term.sym "self"), (Term.sym "isspace"), attr19_1']);
+  let attr20_1' : Term := (Term.app "call" [wrap', (Term.sym "'istitle'")]);
+  let eff20 : Term := (Term.app "setattr" [(Term.sym "self"), (Term.sym "istitle"), attr20_1']);
+  let attr21_1' : Term := (Term.app "call" [wrap', (Term.sym "'isupper'")]);
+  let eff21 : Term := (Term.app "setattr" [(Term.sym "self"), (Term.sym "isupper"), attr21_1']);
+  let attr22_1' : Term := (Term.app "call" [wrap', (Term.sym "'less'")]);
+  let eff22 : Term := (Term.app "setattr" [(Term.sym "self"), (Term.sym "less"), attr22_1']);
+  let attr23_1' : Term := (Term.app "call" [wrap', (Term.sym "'less_equal'")]);
+  let eff23 : Term := (Term.app "setattr" [(Term.sym "self"), (Term.sym "less_equal"), attr23_1']);
+  let attr24_1' : Term := (Term.app "call" [wrap', (Term.sym "'ljust'")]);
+  let eff24 : Term := (Term.app "setattr" [(Term.sym "self"), (Term.sym "ljust"), attr24_1']);
+  let attr25_1' : Term := (Term.app "call" [wrap', (Term.sym "'lower'")]);
+  let eff25 : Term := (Term.app "setattr" [(Term.sym "self"), (Term.sym "lower"), attr25_1']);
+  let attr26_1' : Term := (Term.app "call" [wrap', (Term.sym "'lstrip'")]);
+  let eff26 : Term := (Term.app "setattr" [(Term.sym "self"), (Term.sym "lstrip"), attr26_1']);
+  let attr27_1' : Term := (Term.app "call" [wrap', (Term.sym "'mod'")]);
+  let eff27 : Term := (Term.app "setattr" [(Term.sym "self"), (Term.sym "mod"), attr27_1']);
+  let attr28_1' : Term := (Term.app "call" [wrap', (Term.sym "'multiply'")]);
+  let eff28 : Term := (Term.app "setattr" [(Term.sym "self"), (Term.sym "multiply"), attr28_1']);
+  let attr29_1' : Term := (Term.app "call" [wrap', (Term.sym "'not_equal'")]);
+  let eff29 : Term := (Term.app "setattr" [(Term.sym "self"), (Term.sym "not_equal"), attr29_1']);
+  let attr30_1' : Term := (Term.app "call" [wrap', (Term.sym "'replace'")]);
+  let eff30 : Term := (Term.app "setattr" [(Term.sym "self"), (Term.sym "replace"), attr30_1']);
+  let attr31_1' : Term := (Term.app "call" [wrap', (Term.sym "'rfind'")]);
+  let eff31 : Term := (Term.app "setattr" [(Term.sym "self"), (Term.sym "rfind"), attr31_1']);
+  let attr32_1' : Term := (Term.app "call" [wrap', (Term.sym "'rindex'")]);
+  let eff32 : Term := (Term.app "setattr" [(Term.sym "self"), (Term.sym "rindex"), attr32_1']);
+  let attr33_1' : Term := (Term.app "call" [wrap', (Term.sym "'rjust'")]);
+  let eff33 : Term := (Term.app "setattr" [(Term.sym "self"), (Term.sym "rjust"), attr33_1']);
+  let attr34_1' : Term := (Term.app "call" [wrap', (Term.sym "'rstrip'")]);
+  let eff34 : Term := (Term.app "setattr" [(Term.sym "self"), (Term.sym "rstrip"), attr34_1']);
+  let attr35_1' : Term := (Term.app "call" [wrap', (Term.sym "'startswith'")]);
+  let eff35 : Term := (Term.app "setattr" [(Term.sym "self"), (Term.sym "startswith"), attr35_1']);
+  let attr36_1' : Term := (Term.app "call" [wrap', (Term.sym "'str_len'")]);
+  let eff36 : Term := (Term.app "setattr" [(Term.sym "self"), (Term.sym "str_len"), attr36_1']);
+  let attr37_1' : Term := (Term.app "call" [wrap', (Term.sym "'strip'")]);
+  let eff37 : Term := (Term.app "setattr" [(Term.sym "self"), (Term.sym "strip"), attr37_1']);
+  let attr38_1' : Term := (Term.app "call" [wrap', (Term.sym "'swapcase'")]);
+  let eff38 : Term := (Term.app "setattr" [(Term.sym "self"), (Term.sym "swapcase"), attr38_1']);
+  let attr39_1' : Term := (Term.app "call" [wrap', (Term.sym "'title'")]);
+  let eff39 : Term := (Term.app "setattr" [(Term.sym "self"), (Term.sym "title"), attr39_1']);
+  let attr40_1' : Term := (Term.app "call" [wrap', (Term.sym "'translate'")]);
+  let eff40 : Term := (Term.app "setattr" [(Term.sym "self"), (Term.sym "translate"), attr40_1']);
+  let attr41_1' : Term := (Term.app "call" [wrap', (Term.sym "'upper'")]);
+  let eff41 : Term := (Term.app "setattr" [(Term.sym "self"), (Term.sym "upper"), attr41_1']);
+  let attr42_1' : Term := (Term.app "call" [wrap', (Term.sym "'zfill'")]);
+  let eff42 : Term := (Term.app "setattr" [(Term.sym "self"), (Term.sym "zfill"), attr42_1']);
+  Out.fall [eff0, eff1, eff2, eff3, eff4, eff5, eff6, eff7, eff8, eff9, eff10, eff11, eff12, eff13, eff14, eff15, eff16, eff17, eff18, eff19, eff20, eff21, eff22, eff23, eff24, eff25, eff26, eff27, eff28, eff29, eff30, eff31, eff32, eff33, eff34, eff35, eff36, eff37, eff38, eff39, eff40, eff41, eff42]
+
+/-- the decorators of dataiter/vector.py: StrProxy.__init__, outermost first -/
+def StrProxy_init_decorators : List String := []
+
+/-- the signature of dataiter/vector.py: StrProxy.__init__: parameters in order, with the source text of their defaults -/
+def StrProxy_init_signature : List String := ["self", "vector"]
+
+/-- the calls of dataiter/vector.py: StrProxy.__init__ in the order Python makes them along the source text -/
+def StrProxy_init_call_order : List String := ["wrap", "wrap", "wrap", "wrap", "wrap", "wrap", "wrap", "wrap", "wrap", "wrap", "wrap", "wrap", "wrap", "wrap", "wrap", "wrap", "wrap", "wrap", "wrap", "wrap", "wrap", "wrap", "wrap", "wrap", "wrap", "wrap", "wrap", "wrap", "wrap", "wrap", "wrap", "wrap", "wrap", "wrap", "wrap", "wrap", "wrap", "wrap", "wrap", "wrap", "wrap", "wrap", "wrap"]
+
+/-- dataiter/vector.py: Vector.dt (sha256 of the function source: d796f1bb9c2023d8) -/
+def Vector_dt (truth : Term → Bool) : Out :=
+  if (!truth (Term.app "hasattr" [(Term.sym "self"), (Term.sym "'_dt'")])) then
+    let attr0_2' : Term := (Term.app "DtProxy" [(Term.sym "self")]);
+    let eff0 : Term := (Term.app "setattr" [(Term.sym "self"), (Term.sym "_dt"), attr0_2']);
+    Out.ret [eff0] attr0_2'
+  else
+    Out.ret [] (Term.app "._dt" [(Term.sym "self")])
+
+/-- the decorators of dataiter/vector.py: Vector.dt, outermost first -/
+def Vector_dt_decorators : List String := ["property"]
+
+/-- the signature of dataiter/vector.py: Vector.dt: parameters in order, with the source text of their defaults -/
+def Vector_dt_signature : List String := ["self"]
+
+/-- the calls of dataiter/vector.py: Vector.dt in the order Python makes them along the source text -/
+def Vector_dt_call_order : List String := ["hasattr", "DtProxy"]
+
+/-- dataiter/vector.py: Vector.re (sha256 of the function source: 7dc00034c30e2e66) -/
+def Vector_re (truth : Term → Bool) : Out :=
+  if (!truth (Term.app "hasattr" [(Term.sym "self"), (Term.sym "'_re'")])) then
+    let attr0_2' : Term := (Term.app "ReProxy" [(Term.sym "self")]);
+    let eff0 : Term := (Term.app "setattr" [(Term.sym "self"), (Term.sym "_re"), attr0_2']);
+    Out.ret [eff0] attr0_2'
+  else
+    Out.ret [] (Term.app "._re" [(Term.sym "self")])
+
+/-- the decorators of dataiter/vector.py: Vector.re, outermost first -/
+def Vector_re_decorators : List String := ["property"]
+
+/-- the signature of dataiter/vector.py: Vector.re: parameters in order, with the source text of their defaults -/
+def Vector_re_signature : List String := ["self"]
+
+/-- the calls of dataiter/vector.py: Vector.re in the order Python makes them along the source text -/
+def Vector_re_call_order : List String := ["hasattr", "ReProxy"]
+
+/-- dataiter/vector.py: Vector.str (sha256 of the function source: bed433c591e2d6ca) -/
+def Vector_str (truth : Term → Bool) : Out :=
+  if (!truth (Term.app "hasattr" [(Term.sym "self"), (Term.sym "'_str'")])) then
+    let attr0_2' : Term := (Term.app "StrProxy" [(Term.sym "self")]);
+    let eff0 : Term := (Term.app "setattr" [(Term.sym "self"), (Term.sym "_str"), attr0_2']);
+    Out.ret [eff0] attr0_2'
+  else
+    Out.ret [] (Term.app "._str" [(Term.sym "self")])
+
+/-- the decorators of dataiter/vector.py: Vector.str, outermost first -/
+def Vector_str_decorators : List String := ["property"]
+
+/-- the signature of dataiter/vector.py: Vector.str: parameters in order, with the source text of their defaults -/
+def Vector_str_signature : List String := ["self"]
+
+/-- the calls of dataiter/vector.py: Vector.str in the order Python makes them along the source text -/
+def Vector_str_call_order : List String := ["hasattr", "StrProxy"]
+
+/-- dataiter/vector.py: as_vector (sha256 of the function source: ce15b1719feea61b) -/
+def vector_as_vector (truth : Term → Bool) : Out :=
+  let wrapper' : Term := (Term.app "local-def" [(Term.app "def" [(Term.app "decorator" [(Term.app "functools.wraps" [(Term.sym "function")])]), (Term.sym "wrapper"), (Term.app "params" [(Term.sym "*args"), (Term.sym "**kwargs")]), (Term.app "block" [(Term.app "assign" [(Term.sym "array"), (Term.app "function" [(Term.app "*" [(Term.sym "args")]), (Term.app "=**" [(Term.sym "kwargs")])])]), (Term.app "return" [(Term.app ".view" [(Term.sym "array"), (Term.sym "Vector")])])])])]);
+  Out.ret [] wrapper'
+
+/-- the decorators of dataiter/vector.py: as_vector, outermost first -/
+def vector_as_vector_decorators : List String := []
+
+/-- the signature of dataiter/vector.py: as_vector: parameters in order, with the source text of their defaults -/
+def vector_as_vector_signature : List String := ["function"]
+
+/-- the calls of dataiter/vector.py: as_vector in the order Python makes them along the source text -/
+def vector_as_vector_call_order : List String := []
+
+/-- dataiter/vector.py: as_vector.wrapper (sha256 of the function source: a94c7abc8e96cbda) -/
+def vector_as_vector_wrapper (truth : Term → Bool) : Out :=
+  let array' : Term := (Term.app "function" [(Term.app "*" [(Term.sym "args")]), (Term.app "=**" [(Term.sym "kwargs")])]);
+  Out.ret [] (Term.app ".view" [array', (Term.sym "Vector")])
+
+/-- the decorators of dataiter/vector.py: as_vector.wrapper, outermost first -/
+def vector_as_vector_wrapper_decorators : List String := ["functools.wraps(function)"]
+
+/-- the signature of dataiter/vector.py: as_vector.wrapper: parameters in order, with the source text of their defaults -/
+def vector_as_vector_wrapper_signature : List String := ["*args", "**kwargs"]
+
+/-- the calls of dataiter/vector.py: as_vector.wrapper in the order Python makes them along the source text -/
+def vector_as_vector_wrapper_call_order : List String := ["function", "array.view"]
+
 end DI.Gen
